@@ -223,10 +223,9 @@ def showErr (e : Gov.Err) : String :=
   | .withdrawNotEligible => "withdrawNotEligible" | .noSuchFunder => "noSuchFunder"
   | .statusNotCompleted => "statusNotCompleted" | .unableToQueryVoteResult => "unableToQueryVoteResult"
   | .votingTBD => "votingTBD" | .finalizeConfigUpdateFailed => "finalizeConfigUpdateFailed"
-  | .panicDivZero => "panicDivZero"
 
 def showRes : Res → String
-  | .ok => "res ok" | .err e => "res err:" ++ showErr e | .crash => "res crash"
+  | .ok => "res ok" | .err e => "res err:" ++ showErr e
 
 def showSt (s0 s : St) (r : Res) : String :=
   " | ".intercalate ([showRes r, showOpts s.opts,
